@@ -259,6 +259,16 @@ pub struct FaultReader<'a> {
     pub payload: u64,
 }
 
+/// The error kinds a failing stream reports, rotated over the injection points (Interrupted is
+/// not a failure: std and the parser retry it). A reader that special-cases one kind — e.g.
+/// takes UnexpectedEof for the end of the stream — must not get away with it.
+pub const FAULT_KINDS: [io::ErrorKind; 6] = [io::ErrorKind::Other, io::ErrorKind::UnexpectedEof, io::ErrorKind::InvalidData, io::ErrorKind::BrokenPipe, io::ErrorKind::TimedOut, io::ErrorKind::WouldBlock];
+
+pub fn fault_kind(payload: u64) -> io::ErrorKind {
+    // the payload encodes (rank, offset, sticky); mix so that every input sees every kind
+    FAULT_KINDS[((payload >> 1) % 6) as usize]
+}
+
 #[derive(Debug)]
 pub struct Payload(pub u64);
 impl std::fmt::Display for Payload {
@@ -275,7 +285,7 @@ impl<'a> io::Read for FaultReader<'a> {
         }
         if self.pos >= self.fail_at && (self.sticky || self.fired == 0) {
             self.fired += 1;
-            return Err(io::Error::new(io::ErrorKind::Other, Payload(self.payload)));
+            return Err(io::Error::new(fault_kind(self.payload), Payload(self.payload)));
         }
         let mut avail = (self.data.len() - self.pos).min(buf.len()).min(self.chunk);
         if self.pos < self.fail_at && (self.sticky || self.fired == 0) {
